@@ -592,6 +592,18 @@ func ens_af_limit(c *Conn, old_c Conn, ret0 int, ret1 error) bool {
 	return c.readLength == old_c.readLength+c.readRemaining && c.readLength >= 0 && (c.readLimit <= 0 || c.readLength <= c.readLimit) && c.readLimit == old_c.readLimit
 }
 
+// a frame is only ever marked compressed when a decompressor was negotiated
+//@ ensures (*Conn).advanceFrame C14.decompress-negotiated
+func ens_af_decompress(c *Conn, old_c Conn, ret1 error) bool {
+	return ret1 != nil || !c.readDecompress || old_c.readDecompress || c.newDecompressionReader != nil
+}
+
+// an accepted frame consumed at least its two-byte header, and the reader stays well formed
+//@ ensures (*Conn).advanceFrame C14.progress
+func ens_af_progress(c *Conn, old_c Conn, ret1 error) bool {
+	return ghost_rd_pos(c.br) >= ghost_old_rd_pos(c.br) && (ret1 != nil || ghost_rd_pos(c.br) >= ghost_old_rd_pos(c.br)+2 && spec_wfReader(c))
+}
+
 //@ assigns (*Conn).advanceFrame c.readRemaining, c.readFinal, c.readLength, c.readDecompress, c.readMaskPos, c.readMaskKey, c.writeErr, c.writeErrMu, ghost.rd(c.br), ghost.ioerr, ghost.lock(c.mu), ghost.wr(c.conn)
 
 var _ = time.Second
@@ -600,3 +612,99 @@ var _ = time.Second
 //@ safe (*Conn).advanceFrame C07
 //@ safe (*Conn).handleProtocolError C07
 //@ safe isValidReceivedCloseCode C07
+
+// ---------- C14: the message reader and NextReader ----------
+
+func oldspec_current(r *messageReader) bool { return r.c.messageReader == r }
+func oldspec_readErr(c *Conn) error         { return c.readErr }
+
+//@ assume-pure-handlers (*messageReader).Read
+//@ requires (*messageReader).Read
+func req_mrRead(r *messageReader) bool { return r.c != nil && spec_wfReader(r.c) }
+
+// A clean end (io.EOF) is reported only by a reader that was already superseded, or when the final frame of the
+// message has been consumed to its last byte. A message cut short by the transport never ends cleanly.
+//@ ensures (*messageReader).Read C14.read.clean-eof-only-at-message-end
+func ens_mrRead_eof(r *messageReader, ret0 int, ret1 error) bool {
+	if ret1 != io.EOF {
+		return true
+	}
+	c := r.c
+	return ret0 == 0 && (!oldspec_current(r) || c.readRemaining == 0 && c.readFinal)
+}
+
+// bytes are handed out only while the frame in progress has bytes left, never more than it has left
+//@ ensures (*messageReader).Read C14.read.within-frame
+func ens_mrRead_within(r *messageReader, b []byte, ret0 int) bool {
+	c := r.c
+	return ret0 >= 0 && ret0 <= len(b) && (c.readErr != nil || c.readRemaining >= 0) && ghost_rd_pos(c.br) >= ghost_old_rd_pos(c.br)
+}
+
+// an earlier read error is sticky: nothing more is taken from the transport and an error comes back
+//@ ensures (*messageReader).Read C14.read.sticky
+func ens_mrRead_sticky(r *messageReader, ret0 int, ret1 error) bool {
+	if oldspec_readErr(r.c) == nil || !oldspec_current(r) {
+		return true
+	}
+	return ret0 == 0 && ret1 != nil && ghost_rd_pos(r.c.br) == ghost_old_rd_pos(r.c.br)
+}
+
+//@ invariant (*messageReader).Read 0
+func inv_mrRead0(r *messageReader, c *Conn) bool {
+	return c != nil && r.c == c && (c.readErr != nil || spec_wfReader(c)) && oldspec_current(r) && c.messageReader == r &&
+		ghost_rd_pos(c.br) >= ghost_old_rd_pos(c.br) &&
+		(oldspec_readErr(c) == nil || c.readErr == oldspec_readErr(c) && ghost_rd_pos(c.br) == ghost_old_rd_pos(c.br))
+}
+
+//@ decreases (*messageReader).Read 0
+func dec_mrRead0(r *messageReader) int {
+	if r.c.readErr != nil {
+		return 0
+	}
+	return 1 + ghost_rd_len(r.c.br) - ghost_rd_pos(r.c.br)
+}
+
+//@ assigns (*messageReader).Read b[*], r.c.messageReader, r.c.readErr, r.c.readRemaining, r.c.readFinal, r.c.readLength, r.c.readDecompress, r.c.readMaskPos, r.c.readMaskKey, r.c.writeErr, r.c.writeErrMu, ghost.rd(r.c.br), ghost.ioerr, ghost.lock(r.c.mu), ghost.wr(r.c.conn)
+
+// closing the previous message's reader (the message reader itself, or a decompressor around it) concerns that reader only
+//@ iface io.ReadCloser.Close assigns v.*
+
+//@ assume-pure-handlers (*Conn).NextReader
+//@ requires (*Conn).NextReader
+func req_NextReader(c *Conn) bool {
+	return spec_wfReader(c) && c.readErrCount >= 0 && c.readErrCount < 999 && (!c.readDecompress || c.newDecompressionReader != nil)
+}
+
+// a failed connection stays failed: the first read error is returned again and nothing more is taken from the transport
+//@ ensures (*Conn).NextReader C14.nextreader.sticky
+func ens_NextReader_sticky(c *Conn, messageType int, r io.Reader, err error) bool {
+	if oldspec_readErr(c) == nil {
+		return true
+	}
+	return err == oldspec_readErr(c) && r == nil && messageType == noFrame && ghost_rd_pos(c.br) == ghost_old_rd_pos(c.br)
+}
+
+// only data messages are announced, each with a reader; every failure is remembered
+//@ ensures (*Conn).NextReader C14.nextreader.outcome
+func ens_NextReader_outcome(c *Conn, messageType int, r io.Reader, err error) bool {
+	if err != nil {
+		return r == nil && messageType == noFrame && c.readErr == err
+	}
+	return (messageType == TextMessage || messageType == BinaryMessage) && (r != nil || c.readDecompress) && c.messageReader != nil && c.readErr == nil
+}
+
+//@ decreases (*Conn).NextReader 0
+func dec_NextReader0(c *Conn) int {
+	if c.readErr != nil {
+		return 0
+	}
+	return 1 + ghost_rd_len(c.br) - ghost_rd_pos(c.br)
+}
+
+//@ invariant (*Conn).NextReader 0
+func inv_NextReader0(c *Conn) bool {
+	return (c.readErr != nil || spec_wfReader(c)) && c.readErrCount >= 0 && c.readErrCount < 999 && (!c.readDecompress || c.newDecompressionReader != nil) && ghost_rd_pos(c.br) >= ghost_old_rd_pos(c.br) &&
+		(oldspec_readErr(c) == nil || c.readErr == oldspec_readErr(c) && ghost_rd_pos(c.br) == ghost_old_rd_pos(c.br))
+}
+
+//@ assigns (*Conn).NextReader c.reader, c.messageReader, c.readErr, c.readErrCount, c.readRemaining, c.readFinal, c.readLength, c.readDecompress, c.readMaskPos, c.readMaskKey, c.writeErr, c.writeErrMu, ghost.rd(c.br), ghost.ioerr, ghost.lock(c.mu), ghost.wr(c.conn)
